@@ -24,10 +24,11 @@ addrs_reachability_tracker.go as one of its inputs.
 import concurrent.futures as cf
 import json
 import os
+import re
 import time
 
 from lib import evidence, goenv, graph, tlc
-from lib.common import MachineryError, classify_mismatches, log
+from lib.common import HarnessCrash, MachineryError, classify_mismatches, log
 
 PKG = "./p2p/host/basic"
 INV = "INVARIANTS TypeOK ObservedSound Cap NoJunk Complete RelayRule Fresh Lifecycle"
@@ -75,7 +76,7 @@ def replay_instances(thorough):
         ("trk", C(pool=("Lpub",), obsk=("Lpriv",), obsc=("e", "b"), relay=(("Rel1",),), tracker=True, env=2, t=2, hour=1), None),
         # stub reads of one update as separate steps
         ("split", C(pool=("Lun",), natk=("Lpriv",), natc=("-", "Npub"), obsk=("Lpriv", "Ri1"), obsc=("e", "a"), split=True, close=1,
-                    env=2, notify=2), None),
+                    env=2, notify=1), None),
         # ... with relay / reachability events arriving meanwhile (Addrs() uses the new reachability on the old lists)
         ("splitr", C(init=("Lpub",), nat=False, relay=(("Rel1",),), reach=("private", "public"), split=True, env=3), None),
         # no NAT manager, no observed-address manager
@@ -122,7 +123,7 @@ def exhaustive_instances(thorough):
 
 
 def liveness_instances(thorough):
-    out = [("l1", C(pool=("Lun",), obsk=("Lpriv",), obsc=("e", "a"), relay=(("Rel1",),), reach=("private",), first=False, close=1,
+    out = [("l1", C(obsk=("Lpriv",), obsc=("e", "a"), relay=(("Rel1",),), reach=("private",), first=False, close=1,
                     env=2, notify=1, t=0))]
     if thorough:
         out.append(("l2", C(natk=("Lpriv",), natc=("-", "Npub"), obsk=("Lpriv",), obsc=("e", "a"), split=True, first=False, close=1,
@@ -260,8 +261,34 @@ def _print_instance(args):
     return name, r.distinct, r.generated, g.n_states(), g.n_edges(), len(walks), sum(len(w["steps"]) for w in walks), _kinds(g), r.wall, target
 
 
+_PANIC = re.compile(r"^panic: (.*)$", re.M)
+_OWN = ("p2p/host/basic/addrs_manager.go", "p2p/host/basic/addrs_reachability_tracker.go")
+
+
 def _go(ctx, beh):
-    return goenv.run_harness(ctx, PKG, "^TestVerifC17am(Replay|Scenarios)$", inputs=beh, timeout=1500, parallel=4)
+    try:
+        return goenv.run_harness(ctx, PKG, "^TestVerifC17am(Replay|Scenarios)$", inputs=beh, timeout=1500, parallel=4)
+    except HarnessCrash as e:
+        return _crash_verdict(ctx, e, beh)
+
+
+def _crash_verdict(ctx, e, beh):
+    """The test process died. A Go panic raised in the manager's own goroutines (close of a closed channel, send on a
+    closed channel, index out of range ...) cannot be recovered by the harness: a violation if it happens again."""
+    m = _PANIC.search(e.log)
+    if not (m and any(f in e.log for f in _OWN)):
+        raise e
+    try:
+        goenv.run_harness(ctx, PKG, "^TestVerifC17am(Replay|Scenarios)$", inputs=beh, timeout=1500, parallel=4)
+    except HarnessCrash as e2:
+        m2 = _PANIC.search(e2.log)
+        if m2 and any(f in e2.log for f in _OWN):
+            frames = [ln.strip() for ln in e2.log.splitlines() if any(f in ln for f in _OWN)][:4]
+            what = "the address manager panicked in one of its own goroutines: %s (%s)" % (m2.group(1), "; ".join(frames))
+            return {"replayed": 1, "steps": 0, "distinct": 0, "samples": [], "crashed": True, "_out": "", "_log": e2.log[-3000:],
+                    "mismatches": [{"class": "am-panic", "what": what, "got": e2.log[-3000:], "walk": -1, "step": -1}]}
+        raise e2
+    raise MachineryError("the harness process panicked once (%s) and not again with the same seed (inconclusive)" % m.group(1))
 
 
 def run(ctx):
@@ -304,17 +331,20 @@ def run(ctx):
     if not res["mismatches"] and res["distinct"] < target:
         raise MachineryError("replay executed %d distinct transitions of %d" % (res["distinct"], target))
     spath = os.path.join(res["_out"], "scenarios", "result.json")
-    if not os.path.exists(spath):
+    if res.get("crashed"):
+        scen = {"replayed": 0, "mismatches": [], "extra": {}}
+    elif not os.path.exists(spath):
         raise MachineryError("the scenario test wrote no result:\n%s" % res["_log"][-2000:])
-    with open(spath) as f:
-        scen = json.load(f)
+    else:
+        with open(spath) as f:
+            scen = json.load(f)
     div += classify_mismatches(ctx, scen, "scenario")
     sx = scen.get("extra") or {}
-    if not scen["mismatches"]:
+    if not scen["mismatches"] and not res.get("crashed"):
         for k in ("ticker_reflects", "production_cap", "close_without_start", "host_wiring", "record_trimmed"):
             if not sx.get(k):
                 raise MachineryError("vacuous C17am scenario run: %s missing in %s" % (k, sx))
-    if any(c.get("Tracker") == "TRUE" for _, c, _ in rin) and not (res.get("extra") or {}).get("probes"):
+    if any(c.get("Tracker") == "TRUE" for _, c, _ in rin) and not (res.get("extra") or {}).get("probes") and not res["mismatches"]:
         raise MachineryError("vacuous C17am replay: the stub autonat client was never asked")
     states = sum(r[1] for r in xres) + sum(r[1] for r in lres) + sum(r[1] for r in pres)
     trans = sum(r[2] for r in xres) + sum(r[2] for r in lres) + sum(r[2] for r in pres)
